@@ -170,6 +170,8 @@ def reader_shape(repo, mod, fn, reads, fields=None):
                 f = "<elem>." + bname.split(".", 1)[1] if not bname.startswith("self.") else bname.split(".", 1)[1]
             else:
                 f = fields.get(bname)
+            if (bound or "").endswith("[]"):
+                f = "<elem>"
             if kind == "int":
                 end = "LE" if wrap.startswith("LE") else "BE"
                 out.append(("int", detail, end, f))
